@@ -15,7 +15,12 @@ Extracted from the AST of glom/*.py (current source):
     `_ArgValuator` per call; `bbrepr` is `recursive_repr()(…)` (reprlib's guard is keyed by thread);
   * the dict literal `glom()` passes to `_DEFAULT_SCOPE.new_child` (key → how the value is
     built) and the one `_glom` passes to `scope.new_child`;
-  * which attributes of `self` the registry methods on the evaluation path write.
+  * which attributes of `self` the registry methods on the evaluation path write;
+  * re-entry with a scope handed in: the bookkeeping keys `_glom`'s exception handler touches
+    (`…[CHILD_ERRORS].append`, `…[CUR_ERROR] = e`, `NO_PYFRAME in …`) and the key `_glom` writes into
+    the parent map (`pmap[LAST_CHILD_SCOPE] = scope`); and, for `Spec.glom` and `glom()`, which keys
+    they reset AFTER merging the scope they were handed (`scope.update(…)`) and how (`pop` / the
+    value kind assigned).  A reset before the merge does not count: the merge overwrites it.
 """
 import ast
 
@@ -330,6 +335,92 @@ def self_attr_writes(fn):
     return res
 
 
+def _is_key(e):
+    """a sentinel / class used as a scope key: an ALL_CAPS name or `Path`"""
+    return isinstance(e, ast.Name) and (e.id.isupper() or e.id == 'Path')
+
+
+def handler_keys(fn, P):
+    """keys subscripted or membership-tested in the `except` handler of `_glom`, in source order"""
+    out = []
+    handlers = [h for n in ast.walk(fn) if isinstance(n, ast.Try) for h in n.handlers]
+    if not handlers:
+        P.add('_glom: no except handler found')
+    for h in handlers:
+        found = []
+        for n in ast.walk(h):
+            if isinstance(n, ast.Subscript) and _is_key(n.slice):
+                found.append((n.lineno, n.col_offset, n.slice.id))
+            if isinstance(n, ast.Compare) and _is_key(n.left) and any(isinstance(o, (ast.In, ast.NotIn)) for o in n.ops):
+                found.append((n.lineno, n.col_offset, n.left.id))
+        for _, _, k in sorted(found):
+            if k not in out:
+                out.append(k)
+    return out
+
+
+def parent_link_keys(fn):
+    """keys K of `pmap[K] = …` statements of `_glom` (writes into the map of the calling scope)"""
+    out = []
+    for n in ast.walk(fn):
+        if isinstance(n, ast.Assign):
+            for t in n.targets:
+                if (isinstance(t, ast.Subscript) and isinstance(t.value, ast.Name) and t.value.id == 'pmap'
+                        and _is_key(t.slice) and t.slice.id not in out):
+                    out.append(t.slice.id)
+    return out
+
+
+def reentry_resets(fn, qual, P):
+    """(key, how) for every scope key the function resets after `scope.update(<scope handed in>)`:
+    `scope.pop(K, None)` / `scope.maps[0].pop(K, None)` (also in a `for key in (K1, K2…)` loop) → 'pop',
+    `scope[K] = v` (also under `if K in scope:`) → value kind of v ('[]' is a fresh list)"""
+    body = fn.body
+    idx = None
+    for i, st in enumerate(body):
+        if (isinstance(st, ast.Expr) and isinstance(st.value, ast.Call) and isinstance(st.value.func, ast.Attribute)
+                and st.value.func.attr == 'update' and ast.unparse(st.value.func.value) == 'scope'
+                and "'scope'" in ast.unparse(st.value)):
+            idx = i
+    if idx is None:
+        P.add("%s: `scope.update(<the 'scope' keyword>)` not found" % qual)
+        return []
+    out = []
+
+    def is_scope_map(e):
+        return ast.unparse(e) in ('scope', 'scope.maps[0]')
+
+    def pop_key(st):
+        if (isinstance(st, ast.Expr) and isinstance(st.value, ast.Call) and isinstance(st.value.func, ast.Attribute)
+                and st.value.func.attr == 'pop' and is_scope_map(st.value.func.value) and st.value.args):
+            return st.value.args[0]
+        return None
+
+    def emit(stmts):
+        for st in stmts:
+            if isinstance(st, ast.For) and isinstance(st.target, ast.Name) and isinstance(st.iter, (ast.Tuple, ast.List)):
+                for b in st.body:
+                    k = pop_key(b)
+                    if isinstance(k, ast.Name) and k.id == st.target.id:
+                        for e in st.iter.elts:
+                            if _is_key(e):
+                                out.append((e.id, 'pop'))
+            elif pop_key(st) is not None and _is_key(pop_key(st)):
+                out.append((pop_key(st).id, 'pop'))
+            elif isinstance(st, ast.Assign) and len(st.targets) == 1 and isinstance(st.targets[0], ast.Subscript) \
+                    and is_scope_map(st.targets[0].value) and _is_key(st.targets[0].slice):
+                out.append((st.targets[0].slice.id, value_kind(st.value)))
+            elif isinstance(st, ast.If) and not st.orelse and isinstance(st.test, ast.Compare) \
+                    and _is_key(st.test.left) and len(st.test.ops) == 1 and isinstance(st.test.ops[0], ast.In) \
+                    and is_scope_map(st.test.comparators[0]):
+                emit(st.body)
+            elif isinstance(st, (ast.Try, ast.Return)):
+                return False
+        return True
+    emit(body[idx + 1:])
+    return out
+
+
 def extract(ctx):
     P = ctx['P']
     find_def = ctx['find_def']
@@ -402,6 +493,14 @@ def extract(ctx):
             bbrepr_def = ast.unparse(n.value)
     if not bbrepr_def:
         P.add('module-level `bbrepr = ...` not found')
+    # ---- re-entry with a scope handed in
+    hkeys = handler_keys(gi, P) if gi is not None else []
+    plink = parent_link_keys(gi) if gi is not None else []
+    sg = find_def(core, 'glom', cls='Spec')
+    if sg is None:
+        P.add('Spec.glom not found')
+    spec_resets = reentry_resets(sg, 'Spec.glom', P) if sg is not None else []
+    glom_resets = reentry_resets(g, 'glom', P) if g is not None else []
     facts = [
         ('c20MaxCache', 'Nat', max_cache),
         ('c20FromTextShape', 'List String', ft_shape),
@@ -415,6 +514,10 @@ def extract(ctx):
         ('c20GlomScopeRoot', 'String', root or ''),
         ('c20ChildScope', 'List (String × String)', child_scope),
         ('c20RegistryEvalWrites', 'List (String × String)', reg_writes),
+        ('c20HandlerKeys', 'List String', hkeys),
+        ('c20ParentLinkKeys', 'List String', plink),
+        ('c20SpecGlomResets', 'List (String × String)', spec_resets),
+        ('c20GlomResets', 'List (String × String)', glom_resets),
     ]
     return [('C20Facts', 'shared state of glom calls: cache access shapes, writes to module/class state, '
              'per-call scope literals', facts)]
